@@ -125,6 +125,15 @@ func rewriteFile(name string, src []byte, full bool) ([]byte, bool) {
 			imp.Path.Value = strconv.Quote("verif/engine/vsync")
 			imp.Name = ast.NewIdent("sync")
 			changed = true
+		case "sync/atomic":
+			if full {
+				if imp.Name != nil && imp.Name.Name != "atomic" {
+					die("%s: renamed sync/atomic import unsupported", name)
+				}
+				imp.Path.Value = strconv.Quote("verif/engine/vatomic")
+				imp.Name = ast.NewIdent("atomic")
+				changed = true
+			}
 		case "time":
 			r.timeName = "time"
 			if imp.Name != nil {
